@@ -495,7 +495,7 @@ pub fn build_options(level: &J) -> OptionParser<Val> {
     if let Some(h) = level.get("version_flag") {
         op = op.version_parser(named_arg(h));
     }
-    if b(level, "fallback_to_usage") {
+    if b(level, "fallback_to_usage") || b(level, "ftu") {
         op = op.fallback_to_usage();
     }
     if let Some(w) = level.get("max_width").and_then(J::as_u64) {
